@@ -1033,22 +1033,28 @@ func raisesCounterBeforeSkip(f *Func, ri *replayInfo, row types.Object) bool {
 		return false
 	}
 	found := false
+	var stack []ast.Node
 	ast.Inspect(ri.rng.Body, func(x ast.Node) bool {
-		ifs, ok := x.(*ast.IfStmt)
-		if !ok {
+		if x == nil {
+			stack = stack[:len(stack)-1]
 			return true
 		}
-		for _, st := range ifs.Body.List {
-			as, ok := st.(*ast.AssignStmt)
-			if !ok || as.Tok != token.ASSIGN || len(as.Lhs) != 1 || len(as.Rhs) != 1 {
-				continue
-			}
-			sel, ok := ast.Unparen(as.Lhs[0]).(*ast.SelectorExpr)
-			if !ok || sel.Sel.Name != "lastKey" || !isFieldOf(f, as.Rhs[0], row, "cellID") || !guardedRaise(f, g, as) {
-				continue
-			}
-			if cl, ok := g.Locate(ifs.Cond); ok && g.Dominates(cl, skipLoc) {
-				found = true
+		stack = append(stack, x)
+		as, ok := x.(*ast.AssignStmt)
+		if !ok || as.Tok != token.ASSIGN || len(as.Lhs) != 1 || len(as.Rhs) != 1 {
+			return true
+		}
+		sel, ok := ast.Unparen(as.Lhs[0]).(*ast.SelectorExpr)
+		if !ok || sel.Sel.Name != "lastKey" || !isFieldOf(f, as.Rhs[0], row, "cellID") || !guardedRaise(f, g, as) {
+			return true
+		}
+		// some enclosing test (the guard itself, or an `if record is an insert` around it) is passed by every record
+		// before the skip test
+		for _, a := range stack {
+			if ifs, ok := a.(*ast.IfStmt); ok {
+				if cl, ok := g.Locate(ifs.Cond); ok && g.Dominates(cl, skipLoc) {
+					found = true
+				}
 			}
 		}
 		return true
